@@ -15,13 +15,18 @@ func poolDoc(r *rng, schema byte) []elem {
 	pos := 0
 	i := func() *val {
 		x := r.i64Value(nil, valueMode(r.intn(3)))
-		if pos < len(r.poolPrev) && r.chance(1, 4) {
-			x = r.poolPrev[pos]
-		}
 		if pos < len(r.poolPrev) {
+			switch r.intn(8) {
+			case 0, 1:
+				x = r.poolPrev[pos]
+			case 2:
+				x = r.poolPrev2[pos] // the document before the previous one: unchanged across a refused sample in between
+			}
+			r.poolPrev2[pos] = r.poolPrev[pos]
 			r.poolPrev[pos] = x
 		} else {
 			r.poolPrev = append(r.poolPrev, x)
+			r.poolPrev2 = append(r.poolPrev2, x)
 		}
 		pos++
 		return &val{T: 0x12, I: x}
@@ -212,6 +217,18 @@ func init() {
 					runHistory(ho, id, c)
 				})
 			}
+		}
+		// 1d. known finding C07-same-types-other-keys: the collectors that are not schema-aware compare metric count and
+		//     types only, so a document with one field renamed is stored in the open chunk and decodes under the chunk's
+		//     key names. Three fixed histories (tag "renamed"): the driver reports them as the known finding when they
+		//     fail the oracle in that way
+		for _, kind := range []string{"base", "batch", "stream"} {
+			c := hcase{kind: kind, n: 3, probe: true, tag: "renamed"}
+			for _, sym := range "adaf" {
+				c.ops = append(c.ops, c07Op(r, byte(sym)))
+			}
+			id++
+			runHistory(ho, id, c)
 		}
 		// 2. random long histories (adds dominate; N up to 5)
 		nrand := 300
